@@ -271,45 +271,50 @@ Proof.
 Qed.
 
 (* comments *)
+(* leading / standalone / document-trailing comments: no TAB, no newline, not ending in a blank; the EMPTY
+   comment is allowed (it is written as a bare `//`) *)
 Definition comment_safe (c : str) : bool :=
-  negb (nilb c) && negb (memb c_tab c) && negb (memb c_nl c) && negb (last_is_blank c).
+  negb (memb c_tab c) && negb (memb c_nl c) && negb (last_is_blank c).
 Definition trailing_safe (t : option str) : bool :=
-  match t with Some c => nilb c || comment_safe c | None => true end.
+  match t with Some c => comment_safe c | None => true end.
 
 Lemma comment_safe_facts c : comment_safe c = true ->
-  c <> [] /\ memb c_tab c = false /\ memb c_nl c = false /\ last_is_blank c = false.
+  memb c_tab c = false /\ memb c_nl c = false /\ last_is_blank c = false.
 Proof.
   unfold comment_safe. intro H. repeat (apply andb_true_iff in H; destruct H as [H ?H]).
-  repeat split; try (apply negb_true_iff; assumption). destruct c; [discriminate|discriminate].
+  repeat split; apply negb_true_iff; assumption.
 Qed.
 
-Lemma comment_line_ok c : comment_safe c = true -> line_body_ok (s_comment_pre ++ c).
+Lemma comment_line_ok c : comment_safe c = true -> line_body_ok (comment_line c) /\ memb c_nl (comment_line c) = false.
 Proof.
-  intro H. destruct (comment_safe_facts c H) as (Hne & Ht & _ & Hl).
-  repeat split.
-  - rewrite memb_app, Ht. reflexivity.
-  - rewrite last_is_blank_app by exact Hne. exact Hl.
-  - exists c_slash, ([c_slash; c_sp] ++ c). repeat split; reflexivity.
+  intro H. destruct (comment_safe_facts c H) as (Ht & Hn & Hl).
+  destruct c as [|x r].
+  - split; [repeat split; try reflexivity; exists c_slash, [c_slash]; repeat split; reflexivity|reflexivity].
+  - unfold comment_line. split; [repeat split|].
+    + rewrite memb_app, Ht. reflexivity.
+    + rewrite last_is_blank_app by discriminate. exact Hl.
+    + exists c_slash, ([c_slash; c_sp] ++ x :: r). repeat split; reflexivity.
+    + rewrite memb_app, Hn. reflexivity.
 Qed.
 
 (* the text after the value on an assignment line *)
 Definition trail_ok (t : str) : Prop :=
-  t = [] \/ t = [c_comma] \/ exists c, t = c_sp :: s_comment_pre ++ c /\ comment_safe c = true.
+  t = [] \/ t = [c_comma] \/ exists c, t = c_sp :: s_comment_pre ++ c /\ c <> [] /\ comment_safe c = true.
 
 Lemma emit_trailing_ok tr : trailing_safe tr = true -> trail_ok (emit_trailing tr).
 Proof.
-  destruct tr as [[|x r]|]; cbn [trailing_safe emit_trailing nilb orb]; intro H; [left; reflexivity| |left; reflexivity].
-  right. right. exists (x :: r). split; [reflexivity|exact H].
+  destruct tr as [[|x r]|]; cbn [trailing_safe emit_trailing]; intro H; [left; reflexivity| |left; reflexivity].
+  right. right. exists (x :: r). split; [reflexivity|]. split; [discriminate|exact H].
 Qed.
 
 Lemma trail_facts t : trail_ok t ->
   memb c_tab t = false /\ memb c_nl t = false /\ follow_ok t = true /\ (t <> [] -> last_is_blank t = false) /\
   (forall p, scan_code t p false false = true).
 Proof.
-  intros [->|[->|(c & -> & H)]].
+  intros [->|[->|(c & -> & Hne & H)]].
   - repeat split; reflexivity.
   - repeat split; reflexivity.
-  - destruct (comment_safe_facts c H) as (Hne & Ht & Hn & Hl).
+  - destruct (comment_safe_facts c H) as (Ht & Hn & Hl).
     repeat split; try reflexivity.
     + change (c_sp :: s_comment_pre ++ c) with ((c_sp :: s_comment_pre) ++ c). rewrite memb_app, Ht. reflexivity.
     + change (c_sp :: s_comment_pre ++ c) with ((c_sp :: s_comment_pre) ++ c). rewrite memb_app, Hn. reflexivity.
@@ -716,11 +721,11 @@ Proof.
 Qed.
 
 (* ---- comment lines ---------------------------------------------------------------------------------------------- *)
-Lemma comment_line_steps c k : comment_safe c = true -> steps (phys [ind k ++ s_comment_pre ++ c]) k.
+Lemma comment_line_steps c k : comment_safe c = true -> steps (phys [ind k ++ comment_line c]) k.
 Proof.
-  intro H. rewrite phys_one.
-  - apply steps_line. apply comment_line_ok. exact H.
-  - destruct (comment_safe_facts c H) as (_ & _ & Hn & _). rewrite !memb_app, ind_no_nl, Hn. reflexivity.
+  intro H. destruct (comment_line_ok c H) as [L1 L2]. rewrite phys_one.
+  - apply steps_line. exact L1.
+  - rewrite memb_app, ind_no_nl, L2. reflexivity.
 Qed.
 
 Lemma leading_steps cs k : forallb comment_safe cs = true -> steps (phys (emit_leading cs k)) k.
@@ -1029,23 +1034,20 @@ Proof.
     apply meta_value_steps; assumption.
 Qed.
 
-Lemma steps_blank : steps [[]] 0.
-Proof. intros p rest Hp. exists 0%nat. split; [lia|]. cbn [app]. rewrite body_ok_none. reflexivity. Qed.
-
 Lemma steps_plain0 body : line_body_ok body -> steps [body] 0.
 Proof. intro H. exact (steps_line 0 body H). Qed.
 
 Definition meta_part (m : list (str * metaval)) : list str :=
   match m with
   | [] => []
-  | p :: l => match emit_meta_lines (p :: l) with [] => [[]] | ls => s_meta_hdr :: ls end
+  | p :: l => match emit_meta_lines (p :: l) with [] => [] | ls => s_meta_hdr :: ls end
   end.
 
 Lemma meta_part_steps m : meta_safe m = true -> steps (phys (meta_part m)) 0.
 Proof.
   intro H. unfold meta_part. destruct m as [|kv m']; [apply steps_nil|].
   pose proof (meta_lines_steps _ H) as Hs. destruct (emit_meta_lines (kv :: m')) as [|l ls].
-  - exact steps_blank.
+  - apply steps_nil.
   - change (s_meta_hdr :: l :: ls) with ([s_meta_hdr] ++ l :: ls). rewrite phys_app, phys_one by reflexivity. cbn [app].
     destruct (colon_line_ok (lit "META") eq_refl) as [C1 _].
     exact (steps_header 0 _ _ C1 Hs).
@@ -1248,7 +1250,7 @@ Qed.
 (* the decidable class: name an identifier word other than END; sentinel without newline; keys / block heads /
    section heads inert non-empty tokens (contains every identifier word but "vs": ident_key_safe); numbers inert
    tokens (contains all digit strings: digits_num_safe); strings ANY quoted string or inert bare string; lists of
-   such values, nested to any depth, in both layouts; comments non-empty, TAB-free, not ending in a blank; zones with a backtick fence,
+   such values, nested to any depth, in both layouts; comments (possibly empty) TAB-free, not ending in a blank; zones with a backtick fence,
    tidy tag and no content line that is the closing fence; META fields/one nested level of such values *)
 Definition strict_safe_doc (d : doc) : bool := strict_safe_gen d.
 
@@ -1299,20 +1301,34 @@ Definition K : str := lit "K".
 
 Definition strict_emit_full : Prop := forall sp d, strict_profile (emit sp d) = true.
 
-(* comments: ANY comment text *)
+(* comments: ANY comment text without a newline *)
 Definition strict_emit_comments_full : Prop :=
   forall sp c, memb c_nl c = false -> strict_profile (emit sp (doc1 DOC (NAssign K VNull [c] None))) = true.
-(* the EMPTY comment (source line `//`): the emitter writes "// " -- a trailing blank *)
-Lemma strict_emit_comments_refuted :
+(* a comment ending in a blank (not produced by the reader, which strips comment text): leading ... *)
+Lemma strict_emit_comments_refuted_blank_leading :
   exists c, memb c_nl c = false /\ strict_profile (emit sp_ascii (doc1 DOC (NAssign K VNull [c] None))) = false.
-Proof. exists []. split; vm_compute; reflexivity. Qed.
-Lemma strict_emit_comments_refuted_block :
-  strict_profile (emit sp_ascii (doc1 DOC (NBlock (lit "B") None [NComment []; NAssign K VNull [] None] []))) = false.
-Proof. vm_compute. reflexivity. Qed.
-(* a comment ending in a blank (not produced by the reader, which strips comment text) *)
+Proof. exists (lit "note "). split; vm_compute; reflexivity. Qed.
+(* ... and trailing *)
 Lemma strict_emit_comments_refuted_blank :
   strict_profile (emit sp_ascii (doc1 DOC (NAssign K VNull [] (Some (lit "note "))))) = false.
 Proof. vm_compute. reflexivity. Qed.
+(* regression (repo fix 3fa2dc1): EMPTY comments -- leading, standalone inside a block, document-trailing, and an empty
+   trailing comment of an assignment -- are in the class and are written without a trailing blank *)
+Definition ex_empty_comments : doc :=
+  mkDoc DOC None None false []
+    [ NAssign K VNull [[]; lit "x"; []] (Some []);
+      NBlock (lit "B") None [NComment []; NAssign K (VBool true) [[]] None; NComment []] [[]];
+      NSection (lit "1") (lit "S") None [NComment []] [[]] ]
+    [[]; lit "end"; []].
+Example strict_emit_empty_comments :
+  strict_safe_doc ex_empty_comments = true /\ strict_profile (emit sp_ascii ex_empty_comments) = true.
+Proof. split; vm_compute; reflexivity. Qed.
+(* regression (repo fix 1d4faf6): a META block whose fields are all Absent leaves no line at all *)
+Example strict_emit_meta_all_absent :
+  let d := mkDoc DOC None None true [(lit "A", MV VAbsent); (lit "B", MV VAbsent)] [NAssign K VNull [] None] [] in
+  strict_safe_doc d = true /\ strict_profile (emit sp_ascii d) = true /\
+  emit sp_ascii d = lit "===DOC===" ++ [c_nl] ++ lit "---" ++ [c_nl] ++ lit "K::null" ++ [c_nl] ++ lit "===END===" ++ [c_nl].
+Proof. repeat split; vm_compute; reflexivity. Qed.
 
 (* keys: any identifier word *)
 Definition strict_emit_keys_full : Prop :=
@@ -1368,7 +1384,7 @@ Example strict_emit_front_example :
 Proof. repeat split; vm_compute; reflexivity. Qed.
 
 Lemma strict_emit_full_refuted : ~ strict_emit_full.
-Proof. intro H. specialize (H sp_ascii (doc1 DOC (NAssign K VNull [[]] None))). vm_compute in H. discriminate H. Qed.
+Proof. intro H. specialize (H sp_ascii (doc1 DOC (NAssign K VNull [lit "note "] None))). vm_compute in H. discriminate H. Qed.
 
 (* ---- 8. non-vacuity ----------------------------------------------------------------------------------------------------------- *)
 (* depth 4, every scalar kind, strings that need quotes and contain aliases / :: / TAB / newline / quotes / backslash *)
